@@ -628,7 +628,7 @@ _adjust_sigactions_(struct qb_signal_source *s)
 	sigemptyset(&sa.sa_mask);
 
 	/* re-set to default */
-	for (i = 0; i < QB_MAX_NUM_SIGNALS; i++) {
+	for (i = 1; i <= QB_MAX_NUM_SIGNALS; i++) {
 		needed = QB_FALSE;
 		qb_list_for_each_entry(item, &s->sig_head, list) {
 			sig = (struct qb_loop_sig *)item;
